@@ -310,6 +310,21 @@ def _one(case, bad, tags, ats, voc_tag, voc_at):
             got = [d.offset for d in cu.iter_DIEs()]
             if got != offs:
                 bad('dies.offsets.after_' + order, offs, got)
+    # ---- order 6: a later unit opened directly by its offset, then entries of earlier units by section offset (what a
+    # ---- DW_FORM_ref_addr reference into a not yet parsed unit does)
+    if case['mode'] != 'types' and len(case['units']) > 1:
+        di7 = _mk(case)
+        lastu = case['units'][-1]
+        cu = di7.get_CU_at(lastu['off'])
+        if cu.cu_offset != lastu['off']:
+            bad('cu_at.offset', lastu['off'], cu.cu_offset)
+        for uv in case['units'][:-1]:
+            for dv in uv['dies'][:3]:
+                d = di7.get_DIE_from_refaddr(dv['off'])
+                if [d.offset, d.size, d.cu.cu_offset] != [dv['off'], dv['size'], uv['off']]:
+                    bad('refaddr.after_later_unit', [dv['off'], dv['size'], uv['off']], [d.offset, d.size, d.cu.cu_offset])
+        if [c.cu_offset for c in di7.iter_CUs()] != [uv['off'] for uv in case['units']]:
+            bad('iter_CUs.after_later_unit', [uv['off'] for uv in case['units']], [c.cu_offset for c in di7.iter_CUs()])
     # ---- type-signature references from a compile unit (get_DIE_from_attribute through DW_FORM_ref_sig8), before and after the
     # ---- type units were enumerated
     if case['mode'] == 'types' and case.get('sigrefs'):
